@@ -66,4 +66,11 @@ def compute_domains_affine_eq(domains: NDArray, parameters: NDArray) -> int:
             domains[i, MAX] = min(domains[i, MAX], new_max)
             if domains[i, MIN] > domains[i, MAX]:
                 return PROP_INCONSISTENCY
-    return PROP_CONSISTENCY
+    # the new bounds have been computed from the old ones, when all the variables are instantiated the equation is checked
+    remainder = parameters[-1]
+    for i, c in enumerate(parameters[:-1]):
+        if c != 0:
+            if domains[i, MIN] < domains[i, MAX]:
+                return PROP_CONSISTENCY
+            remainder -= c * domains[i, MIN]
+    return PROP_CONSISTENCY if remainder == 0 else PROP_INCONSISTENCY
